@@ -76,6 +76,9 @@ var translationUnits = []tunit{
 	}, consts: []string{"internal/authz/oidc.go"}, vars: []tfunc{{"internal/authz/oidc.go", "standardResponseHeaders"}}},
 	{module: "CodeStore", funcs: []tfunc{
 		{"internal/oidc/memory.go", "memoryStore.live"},
+		{"internal/oidc/memory.go", "newSession"},
+		{"internal/oidc/redis.go", "redisToken.TokenResponse"},
+		{"internal/oidc/redis.go", "redisAuthState.AuthorizationState"},
 	}},
 }
 
@@ -92,7 +95,8 @@ var typeTable = map[string]string{
 	"*status.Status": "Pb.Status", "codes.Code": "Int", "*structpb.Value": "Pb.Value",
 	"*envoy.DeniedHttpResponse": "Pb.DeniedHttpResponse", "*envoy.OkHttpResponse": "Pb.OkHttpResponse", "*corev3.HeaderValueOption": "Pb.HeaderValueOption",
 	"*corev3.HeaderValue": "Pb.HeaderValue", "*typev3.HttpStatus": "Pb.HttpStatus", "[]*corev3.HeaderValueOption": "List Pb.HeaderValueOption",
-	"*memoryStore": "Pb.MemoryStore", "*session": "Pb.Session",
+	"*memoryStore": "Pb.MemoryStore", "*session": "Pb.Session", "redisToken": "Pb.RedisToken", "redisAuthState": "Pb.RedisAuthState",
+	"*TokenResponse": "Pb.TokenResponse", "*AuthorizationState": "Pb.AuthorizationState", "time.Time": "Go.Time",
 	"*envoy.CheckResponse_DeniedResponse": "Pb.CheckResponse_DeniedResponse", "*envoy.CheckResponse_OkResponse": "Pb.CheckResponse_OkResponse",
 }
 
